@@ -4,6 +4,8 @@ import (
 	"context"
 	"errors"
 	"fmt"
+	"os"
+	"runtime"
 	"strings"
 	"sync"
 	"sync/atomic"
@@ -27,6 +29,13 @@ import (
 //   (b) every observed removal of a timer object must be explained by a Stop* call that overlaps or follows its
 //       registration, by its own callback having returned keep=false / an error, or by the final shutdown;
 //   (c) start(0) - (clock read before registration) >= interval(0), start(k+1) - end(k) >= interval(k+1).
+//
+// A second phase ("registration storm") is about clause (c) at the moment of registration: several goroutines register
+// timers (New/NewTimer, reused ids, mostly intervals far longer than the test) as fast as they can, with drawn
+// runtime.Gosched calls and StopTimers in between, against a timer loop that ticks with a resolution of 1 ns..100 us,
+// so that the loop looks at the timers while they are being published. The oracle is the same one-sided clock
+// comparison, made inside the harness-owned callback: a callback that starts less than interval(0) after the clock
+// reading taken before its registration call began is a violation; a late callback never is.
 
 const (
 	c34ActNone = iota
@@ -402,6 +411,348 @@ func (x *c34Run) callback(tm *c34Timer) (bool, error) {
 	}
 }
 
+// ---- phase 2: registration storm
+
+var (
+	c34StormIntervals   = []time.Duration{time.Hour, time.Hour, 10 * time.Minute, time.Second, time.Millisecond, 100 * time.Microsecond}
+	c34StormResolutions = []time.Duration{1, 100, time.Microsecond, 10 * time.Microsecond, 100 * time.Microsecond}
+)
+
+const (
+	c34AfterNone    = iota // leave the timer; the next registration under the id replaces it
+	c34AfterStop           // StopTimers([id]) right away
+	c34AfterStopAll        // StopTimers(every id of the case)
+)
+
+var c34AfterNames = []string{"-", "stop", "stop-pool"}
+
+type c34StormOp struct {
+	ID       int // index into the id pool of the case (shared by all workers)
+	Plain    bool
+	Interval int // index into c34StormIntervals
+	Before   int // runtime.Gosched calls before the registration
+	Yield    int // runtime.Gosched calls after the registration returned
+	After    int
+}
+
+type c34Storm struct {
+	Size       uint64
+	Resolution int // index into c34StormResolutions
+	NIDs       int
+	Rounds     int
+	Sentinel   bool // a 200us timer under its own id that nobody stops: counts ticks of the loop
+	Workers    [][]c34StormOp
+}
+
+func c34GenStorm(t *rapid.T) c34Storm {
+	p := c34Storm{
+		Size:       rapid.SampledFrom([]uint64{1, 1, 2, 16}).Draw(t, "size"),
+		Resolution: rapid.IntRange(0, len(c34StormResolutions)-1).Draw(t, "resolution"),
+		NIDs:       rapid.IntRange(1, 8).Draw(t, "ids"),
+		Rounds:     rapid.SampledFrom([]int{20, 100, 300, 600}).Draw(t, "rounds"),
+		Sentinel:   rapid.IntRange(0, 3).Draw(t, "sentinel") != 0,
+	}
+
+	nw := rapid.IntRange(2, 8).Draw(t, "workers")
+	for w := 0; w < nw; w++ {
+		n := rapid.IntRange(1, 4).Draw(t, "pattern")
+		ops := make([]c34StormOp, n)
+
+		for i := range ops {
+			ops[i] = c34StormOp{
+				ID:       rapid.IntRange(0, p.NIDs-1).Draw(t, "id"),
+				Plain:    rapid.Bool().Draw(t, "plain"),
+				Interval: rapid.IntRange(0, len(c34StormIntervals)-1).Draw(t, "interval"),
+				Before:   rapid.SampledFrom([]int{0, 0, 0, 1, 2}).Draw(t, "before"),
+				Yield:    rapid.SampledFrom([]int{0, 0, 1, 1, 3}).Draw(t, "yield"),
+				After:    rapid.SampledFrom([]int{c34AfterNone, c34AfterNone, c34AfterNone, c34AfterStop, c34AfterStop, c34AfterStopAll}).Draw(t, "after"),
+			}
+		}
+
+		p.Workers = append(p.Workers, ops)
+	}
+
+	return p
+}
+
+func (p c34Storm) String() string {
+	var b strings.Builder
+
+	fmt.Fprintf(&b, "c34-storm shards=%d resolution=%v ids=%d rounds=%d sentinel=%v:", p.Size, c34StormResolutions[p.Resolution], p.NIDs, p.Rounds, p.Sentinel)
+
+	for w, ops := range p.Workers {
+		fmt.Fprintf(&b, " w%d[", w)
+
+		for i, op := range ops {
+			if i > 0 {
+				b.WriteString(" ")
+			}
+
+			how := "NewTimer"
+			if op.Plain {
+				how = "New"
+			}
+
+			fmt.Fprintf(&b, "y%d %s(s%d every %v) y%d %s;", op.Before, how, op.ID, c34StormIntervals[op.Interval], op.Yield, c34AfterNames[op.After])
+		}
+
+		b.WriteString("]")
+	}
+
+	return b.String()
+}
+
+type c34StormEarly struct {
+	worker, n int // n-th registration of that worker; worker -1 = the sentinel
+	op        c34StormOp
+	k         uint64
+	since     string
+	d, iv     time.Duration
+}
+
+type c34StormRun struct {
+	ts       *util.SimpleTimers
+	ids      []util.TimerID
+	early    atomic.Pointer[c34StormEarly]
+	inflight atomic.Int64
+	closed   atomic.Bool
+	regs     atomic.Int64
+	starts   atomic.Int64 // callback starts of worker timers (all of them at or after their interval, or early is set)
+	ticks    atomic.Int64 // callback starts of the sentinel
+	ticksIn  atomic.Int64 // ... while the workers were registering
+	working  atomic.Bool
+}
+
+// one registration by a worker; everything the oracle needs is captured by the callback closure
+func (x *c34StormRun) register(w, n int, op c34StormOp) error {
+	iv := c34StormIntervals[op.Interval]
+	id := x.ids[op.ID]
+
+	intervalf := func(uint64) time.Duration { return iv }
+
+	var last atomic.Int64 // end of the previous callback, ns since reg; 0 = none yet
+	var reg time.Time
+
+	cb := func(_ context.Context, k uint64) (bool, error) {
+		now := time.Now()
+
+		if x.closed.Load() {
+			return true, nil
+		}
+
+		x.inflight.Add(1)
+		defer x.inflight.Add(-1)
+
+		x.starts.Add(1)
+
+		d, since := now.Sub(reg), "its registration began"
+		if l := last.Load(); l != 0 {
+			d, since = d-time.Duration(l), "its previous callback returned"
+		}
+
+		if d < iv {
+			x.early.CompareAndSwap(nil, &c34StormEarly{worker: w, n: n, op: op, k: k, since: since, d: d, iv: iv})
+		}
+
+		last.Store(max(1, int64(time.Since(reg))))
+
+		return true, nil
+	}
+
+	var added bool
+	var err error
+
+	reg = time.Now()
+
+	if op.Plain {
+		added, err = x.ts.New(id, intervalf, cb)
+	} else {
+		added, err = x.ts.NewTimer(util.NewSimpleTimer(id, intervalf, cb, nil))
+	}
+
+	x.regs.Add(1)
+
+	if err != nil || !added {
+		return fmt.Errorf("registration %d of worker %d: added=%v err=%v", n, w, added, err)
+	}
+
+	return nil
+}
+
+func c34RunStorm(rt *rapid.T, r *ev.Rec, p c34Storm) {
+	ts, err := util.NewSimpleTimers(p.Size, c34StormResolutions[p.Resolution])
+	if err != nil {
+		rt.Fatalf("NewSimpleTimers: %v", err)
+	}
+
+	x := &c34StormRun{ts: ts}
+	for i := 0; i < p.NIDs; i++ {
+		x.ids = append(x.ids, util.TimerID(fmt.Sprintf("s%d", i)))
+	}
+
+	if err := ts.Start(context.Background()); err != nil {
+		rt.Fatalf("start: %v", err)
+	}
+
+	const sentinelEvery = 200 * time.Microsecond
+
+	if p.Sentinel {
+		var last atomic.Int64
+
+		reg := time.Now()
+
+		added, err := ts.New("tick", func(uint64) time.Duration { return sentinelEvery }, func(_ context.Context, k uint64) (bool, error) {
+			now := time.Now()
+
+			if x.closed.Load() {
+				return true, nil
+			}
+
+			x.inflight.Add(1)
+			defer x.inflight.Add(-1)
+
+			x.ticks.Add(1)
+
+			if x.working.Load() {
+				x.ticksIn.Add(1)
+			}
+
+			d, since := now.Sub(reg), "its registration began"
+			if l := last.Load(); l != 0 {
+				d, since = d-time.Duration(l), "its previous callback returned"
+			}
+
+			if d < sentinelEvery {
+				x.early.CompareAndSwap(nil, &c34StormEarly{worker: -1, k: k, since: since, d: d, iv: sentinelEvery})
+			}
+
+			last.Store(max(1, int64(time.Since(reg))))
+
+			return true, nil
+		})
+		if err != nil || !added {
+			rt.Fatalf("c34: sentinel not registered: added=%v err=%v", added, err)
+		}
+	}
+
+	var wg sync.WaitGroup
+
+	errs := make([]error, len(p.Workers))
+	gate := make(chan struct{})
+
+	for w := range p.Workers {
+		wg.Add(1)
+
+		go func(w int, ops []c34StormOp) {
+			defer wg.Done()
+
+			<-gate
+
+			n := 0
+
+			for round := 0; round < p.Rounds; round++ {
+				for _, op := range ops {
+					if x.early.Load() != nil {
+						return
+					}
+
+					for i := 0; i < op.Before; i++ {
+						runtime.Gosched()
+					}
+
+					if err := x.register(w, n, op); err != nil {
+						errs[w] = err
+
+						return
+					}
+
+					n++
+
+					for i := 0; i < op.Yield; i++ {
+						runtime.Gosched()
+					}
+
+					switch op.After {
+					case c34AfterStop:
+						_ = x.ts.StopTimers([]util.TimerID{x.ids[op.ID]})
+					case c34AfterStopAll:
+						_ = x.ts.StopTimers(x.ids)
+					}
+				}
+			}
+		}(w, p.Workers[w])
+	}
+
+	x.working.Store(true)
+	close(gate)
+	wg.Wait()
+	x.working.Store(false)
+
+	_ = ts.Stop()
+
+	// let callbacks that were already collected start and finish (bounded; a budget hit is inconclusive)
+	deadline := time.Now().Add(10 * time.Second)
+	for quiet := 0; quiet < 3; {
+		if x.inflight.Load() == 0 {
+			quiet++
+		} else {
+			quiet = 0
+		}
+
+		if time.Now().After(deadline) {
+			rt.Fatalf("c34: storm callbacks still in flight 10 s after shutdown: %s", p)
+		}
+
+		time.Sleep(200 * time.Microsecond)
+	}
+
+	early := x.early.Load()
+	x.closed.Store(true)
+
+	desc := p.String()
+
+	for w := range errs {
+		if errs[w] != nil {
+			rt.Fatalf("c34: %s: %v", desc, errs[w])
+		}
+	}
+
+	if e := early; e != nil {
+		who := "the sentinel timer (id=tick)"
+		if e.worker >= 0 {
+			how := "NewTimer"
+			if e.op.Plain {
+				how = "New"
+			}
+
+			who = fmt.Sprintf("the timer of registration #%d of worker %d (%s id=s%d)", e.n, e.worker, how, e.op.ID)
+		}
+
+		r.Violation(rt, "callback-before-interval", "%s: callback %d of %s started %v after %s, interval=%v (%d registrations made so far by %d goroutines)",
+			desc, e.k, who, e.d, e.since, e.iv, x.regs.Load(), len(p.Workers))
+	}
+
+	ticking := p.Sentinel && x.ticksIn.Load() > 0 // evidence that the loop looked at the map while registrations were going on
+	classes := []string{"phase:storm", fmt.Sprintf("storm-shards:%d", p.Size), fmt.Sprintf("storm-resolution:%v", c34StormResolutions[p.Resolution])}
+
+	if p.Sentinel && x.ticksIn.Load() > 0 {
+		classes = append(classes, "storm-loop-ticked-during-registrations")
+	}
+
+	if x.starts.Load() > 0 {
+		classes = append(classes, "storm-callback-ran-after-its-interval")
+	}
+
+	r.Class("storm-registrations", x.regs.Load())
+	r.Class("storm-callbacks", x.starts.Load())
+	r.Class("storm-sentinel-ticks", x.ticks.Load())
+	r.Case(desc, ticking, classes...)
+
+	if ticking && r.WantSample() {
+		r.Sample(map[string]any{"program": desc, "registrations": x.regs.Load(), "callbacks": x.starts.Load(), "sentinel_ticks_during_registrations": x.ticksIn.Load()})
+	}
+}
+
 func TestC34(t *testing.T) {
 	r := ev.Start(t, "C34")
 	defer r.Finish()
@@ -414,10 +765,35 @@ func TestC34(t *testing.T) {
 		"removals are observed through NewSimpleTimer's whenRemoved hook; timers registered through SimpleTimers.New have no hook and are only subject to clauses (a) and (c)",
 		"intervals are >= 1 ms; clock readings are monotonic and taken before registration / at callback entry / at callback exit, so lateness of the machine cannot produce a violation")
 
+	// a rapid fail file replays one phase: the storm phase marks its cases with "c34-storm"
+	replayStorm, replayProgram := false, false
+
+	if f := os.Getenv("VERIF_RAPID_FAILFILE"); f != "" {
+		b, _ := os.ReadFile(f)
+		replayStorm = strings.Contains(string(b), "c34-storm")
+		replayProgram = !replayStorm
+	}
+
 	r.Checks(300, 16000)
 	r.ShrinkTime(30 * time.Second)
 
-	rapid.Check(t, func(rt *rapid.T) {
+	if !replayStorm {
+		rapid.Check(t, c34ProgramCase(r))
+	}
+
+	if r.Failed() || t.Failed() || replayProgram {
+		return
+	}
+
+	// ---- phase 2: registration storm
+	r.Checks(120, 6400)
+	r.ShrinkTime(15 * time.Second)
+
+	rapid.Check(t, func(rt *rapid.T) { c34RunStorm(rt, r, c34GenStorm(rt)) })
+}
+
+func c34ProgramCase(r *ev.Rec) func(rt *rapid.T) {
+	return func(rt *rapid.T) {
 		p := c34GenProgram(rt)
 
 		ts, err := util.NewSimpleTimers(p.Size, time.Duration(p.Resolution)*time.Millisecond)
@@ -645,5 +1021,5 @@ func TestC34(t *testing.T) {
 		if reuseInFlight && r.WantSample() {
 			r.Sample(map[string]any{"program": desc, "timers": len(timers), "callbacks": ncb, "stop_calls": len(stops)})
 		}
-	})
+	}
 }
